@@ -306,6 +306,9 @@ class BuiltinMixin:
             raise Unsupported(f'method {name} on untyped empty literal (add a sort hint)')
         if k.name in ('ReMatch', 'ReGroupDict'):
             return self.rematch_method(base, name, args, kw)
+        if k.name == 'PyDateTime':
+            # wall-clock values are opaque: any text
+            return SV(STR, self.p.fresh('timestr', z3.StringSort()))
         if k.is_list:
             return self.list_method(base, name, args, kw)
         if k.is_set:
